@@ -65,7 +65,6 @@ def checkResSexp : CheckRes → Sexp
   | .ok => .list [.atom "ok"]
   | .missing fn op => .list [.atom "missing", Sexp.str fn, Sexp.str op]
   | .badSignature fn op => .list [.atom "badsig", Sexp.str fn, Sexp.str op]
-  | .panic fn op => .list [.atom "panic", Sexp.str fn, Sexp.str op]
 
 def bad : Sexp := .list [.atom "bad-request"]
 
